@@ -4,7 +4,7 @@
    parsers are covered by fuzzing on the implementation (with the model compared on outcome class). *)
 From Coq Require Import List Bool NArith String.
 From PC Require Import Base.Result Model.Pep440 Spec.Pep440Spec Model.VConstraint
-     Proofs.Pep440Parse Proofs.UnionTotal Proofs.ParseTotal.
+     Proofs.Pep440Parse Proofs.UnionTotal Proofs.ParseTotal Proofs.UnionHull Proofs.UnionTotalGood Proofs.InterTotal Proofs.CommaDefined.
 Import ListNotations.
 
 (* versions: accepted -> a well-formed version (which always prints); otherwise InvalidVersionError *)
@@ -20,3 +20,18 @@ Theorem C19_union_of_ranges_total : forall fuel cs,
   forallb is_rr (flat_map flatten cs) = true -> exists c, vunion_of (S fuel) cs = Ok c.
 Proof. exact union_of_ranges_total. Qed.
 Print Assumptions C19_union_of_ranges_total.
+
+(* no AssertionError either when the members are good (bounds well-formed, proper, without local label): a comma set whose clauses
+   parse is then defined (the intersections never reach the asserts of VersionRange.intersect), and so is a '||' of defined groups
+   (VersionUnion.of never indexes an empty list or loops).  D44 was exactly a comma set leaving this class ("<1.dev0.*" built an
+   improper range). *)
+Theorem C19_comma_set_defined : forall m clauses cs, clauses <> [] -> mapR (parse_single_pep m) clauses = Ok cs ->
+  forallb goodc cs = true -> exists g, parse_group m clauses = Ok g /\ goodc g = true.
+Proof. exact comma_set_defined. Qed.
+Print Assumptions C19_comma_set_defined.
+Theorem C19_or_groups_defined : forall m groups gs, mapR (parse_group m) groups = Ok gs -> forallb goodc gs = true ->
+  exists c, parse_constraint_groups m groups = Ok c.
+Proof. exact or_groups_defined. Qed.
+Print Assumptions C19_or_groups_defined.
+Example C19_comma_set_defined_example : exists cs, mapR (parse_single_pep false) [">=1.0"; "!=1.5"; "<2.0"]%string = Ok cs /\ forallb goodc cs = true.
+Proof. eexists. split; vm_compute; reflexivity. Qed.
